@@ -42,7 +42,7 @@ static void leak_report(void){}
 #endif
 
 #define MAXLINK 64
-#define MAXFILE 64
+#define MAXFILE 512
 #define MAXH 4
 static link_t *g_links[MAXLINK];
 static file_t *g_files[MAXFILE];
